@@ -92,6 +92,10 @@ def replay(spec, history, key):
     scheme, opt = make_optimizer(spec, snaps)
     vs = []
     out = None
+    if history:
+        fresh_value(spec, history[-1], key)  # the reference optimiser is created while `opt` exists, before it evaluates
+    bystander = scheme.parameters.copy()  # a newer parameter set holding other values exists during the history
+    bystander.set_from_label_and_value_arrays(opt._free_parameter_labels, S.x_vector(spec, 1) * 1.11)
     for i, k in enumerate(history):
         out = evaluate(spec, opt, k)
         if i == len(history) - 1:
@@ -220,6 +224,10 @@ def builtin_replay(name, history, fresh):
         o2 = Optimizer(builtin_scheme(name), verbose=False, raise_exception=True)
         o2._free_parameter_labels = labels
         want_last = ev(o2, history[-1])
+    # ... and a newer parameter set holding *other* values exists while `opt` evaluates (objects of the same class
+    # created later must not influence this optimiser either)
+    bystander = scheme.parameters.copy()
+    bystander.set_from_label_and_value_arrays(labels, builtin_vector(x0, 7))
     for i, k in enumerate(history):
         out = ev(opt, k)
         if i == len(history) - 1:
